@@ -35,8 +35,21 @@ DateDiffAct(k, o, since, bare) ==
      IN last' = [op |-> "datediff", rel |-> cur.rel, dur |-> cur.dur, b |-> b, o |-> o, since |-> since, bare |-> bare,
                  out |-> DateDiffRounded(cur.rel, b, o.lg, o.sm, o.inc, o.mode, since)]
   /\ UNCHANGED cur
+\* PlainDateTime.until / since with rounding options: times on both sides chosen so that the time-of-day order agrees and disagrees
+\* with the date order; cal: the same values under the gregory calendar (same answers); nomode: the mode left out of the call (trunc)
+DTOffsets == {-45, -1, 0, 1, 45}
+DTTimesA == {Time(0, 0, 0, 0, 0, 0), Time(12, 0, 0, 0, 0, 0)}
+DTTimesB == {Time(6, 0, 0, 0, 0, 0), Time(23, 59, 59, 999, 999, 999)}
+DTDiffAct(k, ta, tb, o, since, cal, nomode) ==
+  /\ cur.dur = AnchorDur /\ (nomode => o.mode = "trunc") /\ (cal = "gregory" => o.inc = 1 /\ o.mode = "trunc" /\ o.lg \notin CalendarUnits)   \* (calendar-unit arithmetic is not implemented for non-ISO calendars)
+  /\ LET a == DT(cur.rel, ta)   b == DT(CivilFromDays(DFC(cur.rel) + k), tb)
+     IN last' = [op |-> "dtdiff", rel |-> cur.rel, dur |-> cur.dur, a |-> a, b |-> b, o |-> o, since |-> since, cal |-> cal, nomode |-> nomode,
+                 out |-> DTDiffRounded(a, b, o.lg, o.sm, o.inc, o.mode, since)]
+  /\ UNCHANGED cur
 Next == /\ (OneStep => last = None)
         /\ \/ \E o \in Opts : UnitLe(o.sm, o.lg) /\ RoundAct(o)
+           \/ \E k \in DTOffsets, ta \in DTTimesA, tb \in DTTimesB, o \in Opts, since \in BOOLEAN, cal \in {"iso8601", "gregory"}, nomode \in BOOLEAN :
+                  UnitLe(o.sm, o.lg) /\ DTDiffAct(k, ta, tb, o, since, cal, nomode)
            \/ \E k \in DiffOffsets, o \in DateOpts, since \in BOOLEAN, bare \in BOOLEAN : UnitLe(o.sm, o.lg) /\ DateDiffAct(k, o, since, bare)
            \/ \E u \in TotalUnits : TotalAct(u)
            \/ \E b \in Durs \cup NearDays(cur.rel, cur.dur) : CmpAct(b)
@@ -46,6 +59,8 @@ Spec == Init /\ [][Next]_vars
 DateDiffLaw == last.op = "datediff" =>
   /\ (last.since => last.out = NegOut(DateDiffRounded(last.rel, last.b, last.o.lg, last.o.sm, last.o.inc, NegateMode(last.o.mode), FALSE)))
   /\ (last.out.kind = "ok" => ValidDur(last.out.val) /\ IsZero(last.out.val.h) /\ IsZero(last.out.val.ns))
+DTDiffLaw == last.op = "dtdiff" =>
+  (last.since => last.out = NegOut(DTDiffRounded(last.a, last.b, last.o.lg, last.o.sm, last.o.inc, NegateMode(last.o.mode), FALSE)))
 IsRound == last.op = "round" /\ last.out.kind = "ok"
 R == last.out.val
 O == last.o
